@@ -341,7 +341,11 @@ class XCsr:
 
     _xeval_open = True
 
-    def __init__(self, arg, shape=None):
+    def __init__(self, arg, shape=None, dtype=None, copy=False):
+        from ..xeval import _kind_of, IMAG as _IMAG
+        from ..xarray import XTruncation
+
+        self._kind = _kind_of(dtype) if dtype is not None else None
         if isinstance(arg, tuple) and len(arg) == 2 and all(isinstance(x, (int, Fraction)) for x in arg) and shape is None:
             shape, arg = arg, None
         dense = None
@@ -377,6 +381,11 @@ class XCsr:
         for (i, j) in entries:
             if not (0 <= i < self.shape[0] and 0 <= j < self.shape[1]):
                 raise XRaise("ValueError", f"index ({i}, {j}) out of the matrix shape {self.shape}")
+        if self._kind in ("f", "i"):
+            # a real dtype imposed on the constructor: numpy casts the values, discarding an imaginary part (ComplexWarning only)
+            for v in entries.values():
+                if type(v).__name__ == "Poly" and "__I__" in v.vars():
+                    raise XTruncation(f"a complex value is stored into a sparse matrix of {'float' if self._kind == 'f' else 'integer'} type: its imaginary part is discarded (ComplexWarning only)")
         self.entries = entries
         self._rebuild()
 
